@@ -259,8 +259,20 @@ func decodeOutcome(data []byte, chunk int) *simcheck.Violation {
 	case v := <-done:
 		return v
 	case <-time.After(15 * time.Second):
-		// a few kilobytes decode in microseconds; fifteen seconds of CPU means the decoder spins
-		return &simcheck.Violation{Class: "decode-hang", Msg: fmt.Sprintf("decoding %d bytes did not return within 15 s (input %x...)", len(data), data[:min(len(data), 48)]), Fatal: true}
+	}
+	// A few kilobytes decode in microseconds; fifteen seconds mean the decoder spins - or that
+	// this process did not get the CPU (a machine shared with other jobs). To tell the two
+	// apart the same bytes are decoded once more, by another goroutine, with 75 more seconds
+	// for either of them.
+	again := make(chan *simcheck.Violation, 1)
+	go func() { again <- decodeOutcome1(data, chunk) }()
+	select {
+	case v := <-done:
+		return v
+	case v := <-again:
+		return v
+	case <-time.After(75 * time.Second):
+		return &simcheck.Violation{Class: "decode-hang", Msg: fmt.Sprintf("decoding %d bytes did not return within 90 s, nor did a second attempt within 75 s (input %x...)", len(data), data[:min(len(data), 48)]), Fatal: true}
 	}
 }
 
@@ -339,8 +351,8 @@ func decodeReuse(parts [][]byte) *simcheck.Violation {
 	select {
 	case v := <-done:
 		return v
-	case <-time.After(15 * time.Second):
-		return &simcheck.Violation{Class: "decode-hang", Msg: "a reused decoder did not return within 15 s", Fatal: true}
+	case <-time.After(90 * time.Second):
+		return &simcheck.Violation{Class: "decode-hang", Msg: "a reused decoder did not return within 90 s", Fatal: true}
 	}
 }
 
@@ -437,7 +449,7 @@ func c15Exec(scAny any, c *simcheck.Ctx) *simcheck.Violation {
 			return nil
 		}
 		pc := h.pc
-		pc.WatchdogS = 30
+		pc.WatchdogS = 90 // (real time; generous, because the machine may be shared with other jobs)
 		if op.CrashAt > 0 {
 			// place the kill inside a body: run the build once to see where the bodies are,
 			// put the tree back, and run it again (same tapes) up to one of those steps
@@ -487,7 +499,7 @@ func c15Exec(scAny any, c *simcheck.Ctx) *simcheck.Violation {
 			continue
 		}
 		if res.Sim.Stuck {
-			v := simcheck.V("decode-hang", "building the intact project did not finish within 30 s of real time: encoding or decoding a legal value does not terminate")
+			v := simcheck.V("decode-hang", "building the intact project did not finish within 90 s of real time: encoding or decoding a legal value does not terminate")
 			v.Fatal = true
 			return v
 		}
@@ -718,7 +730,7 @@ func c15Exec(scAny any, c *simcheck.Ctx) *simcheck.Violation {
 			op.Index = preferIndex
 			op.Reload = reload
 			pc := h.pc
-			pc.WatchdogS = 25
+			pc.WatchdogS = 90
 			if idx%3 == 1 {
 				// loaders and targets interleave freely while the damaged record is read
 				pc.Strategy = simrt.StratUniform
@@ -729,7 +741,7 @@ func c15Exec(scAny any, c *simcheck.Ctx) *simcheck.Violation {
 				// reports, it must not make the damaged record look sound
 				pre := h.build(10000+idx, &opSpec{Op: "load-only"}, pc, nil)
 				if pre.Sim.Stuck {
-					v := narrow(simcheck.V("corrupt-record-hang", "%s: loading did not finish within 25 s of real time", what), idx)
+					v := narrow(simcheck.V("corrupt-record-hang", "%s: loading did not finish within 90 s of real time", what), idx)
 					v.Fatal = true
 					return v
 				}
@@ -747,7 +759,7 @@ func c15Exec(scAny any, c *simcheck.Ctx) *simcheck.Violation {
 			ev0 := len(h.w.events)
 			res := h.build(last, &op, pc, nil)
 			if res.Sim.Stuck {
-				v := narrow(simcheck.V("corrupt-record-hang", "%s: loading and building did not finish within 25 s of real time (the uncorrupted project takes milliseconds)", what), idx)
+				v := narrow(simcheck.V("corrupt-record-hang", "%s: loading and building did not finish within 90 s of real time (the uncorrupted project takes milliseconds)", what), idx)
 				v.Fatal = true
 				return v
 			}
